@@ -68,7 +68,7 @@ static int init_pubsub_fd(m_mod_t *mod) {
     if (_pipe(mod) == 0) {
         fd_src_t fd_src = {0};
         fd_src.fd = mod->pubsub_fd[0];
-        if (register_mod_src(mod, M_SRC_TYPE_PS, &fd_src, M_SRC_FD_AUTOCLOSE | M_SRC_PRIO_HIGH, NULL) == 0) {
+        if (add_mod_src(mod, M_SRC_TYPE_PS, &fd_src, M_SRC_FD_AUTOCLOSE | M_SRC_PRIO_HIGH, NULL) == 0) {
             return 0;
         }
         close(mod->pubsub_fd[0]);
@@ -92,6 +92,8 @@ static int manage_srcs(m_mod_t *mod, m_ctx_t *c, int flag, bool stop) {
                     */
                     flush_pubsub_msgs(NULL, NULL, mod);
                 }
+                /* Stop polling on it right now: its memory may outlive it, if any event still references it */
+                poll_set_new_evt(&c->ppriv, t, RM);
                 ret = m_itr_rm(m_itr);
             } else {
                 ret = poll_set_new_evt(&c->ppriv, t, flag);
@@ -558,11 +560,12 @@ _public_ int m_mod_set_tokenbucket(m_mod_t *mod, uint32_t rate, uint64_t burst) 
     M_MOD_ASSERT(mod);
     M_PARAM_ASSERT(rate <= BILLION);
 
-    // src_deregister and src_register already consume a token
-
-    /* If it was already set, remove old timer */
+    /*
+     * (Re)configuring the bucket does not consume tokens: it must be possible on an exhausted bucket too.
+     * If it was already set, remove old timer
+     */
     if (mod->tb.timer.ns != 0) {
-        m_mod_src_deregister_tmr(mod, &mod->tb.timer);
+        rm_mod_src(mod, M_SRC_TYPE_TMR, &mod->tb.timer, M_SRC_INTERNAL, &mod->tb);
     }
     
     // Rate 0 -> disable tb
@@ -580,7 +583,7 @@ _public_ int m_mod_set_tokenbucket(m_mod_t *mod, uint32_t rate, uint64_t burst) 
     mod->tb.tokens = burst;
     mod->tb.timer.clock_id = CLOCK_MONOTONIC;
     mod->tb.timer.ns = BILLION / rate;
-    return m_mod_src_register_tmr(mod, &mod->tb.timer, M_SRC_INTERNAL | M_SRC_PRIO_HIGH, &mod->tb);
+    return add_mod_src(mod, M_SRC_TYPE_TMR, &mod->tb.timer, M_SRC_INTERNAL | M_SRC_PRIO_HIGH, &mod->tb);
 }
 
 _public_ __attribute__((format (printf, 2, 3))) int m_mod_log(const m_mod_t *mod, const char *fmt, ...) {
